@@ -107,6 +107,9 @@ def scan_scope(ctx, parent):
     for kind, getter, ch in scopes_of(parent):
         ctx.count("scope_scans")
         names = [c[".NAME"] for c in ch if ".NAME" in c]
+        if any(v is None for v in names):
+            # "no name" is the ABSENCE of the key: a stored None takes part in uniqueness and lookups like a name
+            return "none-stored-as-name:%s" % kind, "a %s of %s carries .NAME = None" % (kind, type(parent).__name__)
         if len(names) != len(set(names)):
             dup = next(v for v in names if names.count(v) > 1)
             return "duplicate-name:%s" % kind, "two %ss of one %s share .NAME %r" % (kind, type(parent).__name__, dup)
